@@ -13,7 +13,7 @@ U == { <<>>, <<97>>, <<97, 98>>, <<98>>, <<97, 0>>, <<195, 169>> }
 
 Next ==
     \/ \E o \in DOMAIN strs, s \in U : Len(strs[o]) < MaxN /\ PushStr(o, s, Len(strs[o]))
-    \/ \E o \in DOMAIN strs, k \in {"lex", "len"} : SortStr(o, k)
+    \/ \E o \in DOMAIN strs, k \in {"lex", "len", "custom"} : SortStr(o, k)
     \/ \E o \in DOMAIN strs : ClearStr(o)
     \/ DOMAIN strs = {1} /\ CloneStr(1, 2)
 
